@@ -31,7 +31,7 @@ class TransformDatetimeWithTimezone(LibcstResultTransformer, NameResolutionMixin
                     original_node
                 )
                 new_args = self.replace_args(
-                    original_node,
+                    updated_node,
                     [
                         NewArg(
                             name="tz",
@@ -52,7 +52,7 @@ class TransformDatetimeWithTimezone(LibcstResultTransformer, NameResolutionMixin
                     original_node, "tz"
                 ):
                     new_args = self.replace_args(
-                        original_node,
+                        updated_node,
                         [
                             NewArg(
                                 name="tz",
